@@ -65,6 +65,8 @@ HANDLERS['C06'] = HANDLERS['C06'] + [HANDLERS['C02'][2]]
 CENSUS.setdefault('C06', []).append('~+Peers::add_block')
 HANDLERS['C12'] = HANDLERS['C12'] + [HANDLERS['C01'][0]]
 CENSUS['C12'].append(HANDLERS['C01'][0])
+HANDLERS['C16'] = ['!LightClientProtocol::fetch_headers_txs@^Peers::(fetching_idle_txs|fetching_idle_headers|update_blocks_proof_request|update_txs_proof_request)$']
+CENSUS['C16'].extend(HANDLERS['C16'])
 HANDLERS['C09'] = [HANDLERS['C02'][2], HANDLERS['C06'][0]]
 HANDLERS['C08'] = [HANDLERS['C12'][1], HANDLERS['C02'][2], HANDLERS['C06'][0]]
 for _k in ('C08', 'C09'):
